@@ -1,4 +1,6 @@
 import GrmVerif.Lemmas.Dollar
+import GrmVerif.Lemmas.LexCodegen
+import GrmVerif.Extracted
 /-!
 # C13 — a compile-time generated parser and lexer behave exactly like the run-time ones
 
@@ -213,6 +215,92 @@ theorem wrapper_ok_only_if_agree (syms : List Sym) (drain : List AStack) (bound 
           refine ⟨?_, ih as b h2⟩
           cases s <;> cases a <;> simp_all [fits, unpack1]
 
+
+/-! ## The wiring of the lexer code generator
+
+`CTLexerBuilder::build` writes a `lexerdef()` that rebuilds the flags, the start states and the rules of
+the run-time lexer definition. Which flag goes where, which accessor each argument of the generated
+`Rule::new` is read from and which iterators are walked is re-read from the Rust source on every run
+(`GrmVerif/Extracted.lean`, `C13_*`). The first two theorems say what a correct wiring gives, for EVERY
+wiring that passes the decidable checks; the third says that the wiring found in the source passes them. It
+is the third that stops checking when the generator is rewired. -/
+
+open GrmVerif.LexCodegen GrmVerif.Extracted
+
+/-- **The generated flags are the source's flags.** For any list of flag fields and any generated
+assignment lines that pass `flagWiringOk`, and for any user flags and default flags: every field `f` of
+`LexFlags` has, in the generated lexer, the value `user.f.or(default.f)` — the user's setting if there is
+one, the default otherwise; which is what the run-time lexer is built with. -/
+theorem generated_flags_are_source_flags (fields : List String) (w : FlagWiring)
+    (hok : flagWiringOk fields w = true) (user dflt : Flags) :
+    ∀ f ∈ fields, emitFlags w user dflt f = (user f).or (dflt f) := by
+  intro f hf
+  simp only [flagWiringOk, Bool.and_eq_true, List.all_eq_true, beq_iff_eq] at hok
+  obtain ⟨h1, h2⟩ := hok
+  have hany := filter_len_one_any _ _ (h1 f hf)
+  rw [emitFlags, applyLines_self user dflt w (fun l hl => ⟨(h2 l hl).1.1, (h2 l hl).1.2⟩), hany]
+  simp
+
+/-- **The generated rules are the source's rules, in the source's order.** For any rule wirings that pass
+`ruleWiringOk` and iterator expressions that pass `iterOk`: the generated definition exists, has the
+run-time definition's start states (same number, same order), has exactly one `Rule::new` call per
+run-time rule in the same order, and what `Rule::new` builds from the k-th call has, in every field that
+`Rule::new` stores (every field that is not derived from the regex text and the flags), the value of that
+field in the k-th run-time rule. -/
+theorem generated_rules_are_source_rules (fields derived : List String)
+    (rw stores acc : List (String × String)) (rulesIter statesIter : String)
+    (hok : ruleWiringOk fields derived rw stores acc = true) (hit : iterOk rulesIter statesIter = true)
+    (d : LexCodegen.RDef) (dv : RRule) :
+    (∀ r : RRule, ∀ f ∈ fields, f ∉ derived →
+        rebuildRule stores dv (emitRule rw acc fields r) f = r f) ∧
+    ∃ g, emitDef rulesIter statesIter rw acc fields d = some g ∧ g.states = d.states ∧
+      g.rules.length = d.rules.length ∧
+      ∀ k (hk : k < d.rules.length), ∀ f ∈ fields, f ∉ derived →
+        (g.rules[k]?.map (rebuildRule stores dv)).map (· f) = some (d.rules[k] f) := by
+  have hrule : ∀ r : RRule, ∀ f ∈ fields, f ∉ derived →
+      rebuildRule stores dv (emitRule rw acc fields r) f = r f := by
+    intro r f hf hnd
+    simp only [ruleWiringOk, Bool.and_eq_true, List.all_eq_true, Bool.or_eq_true, beq_iff_eq] at hok
+    obtain ⟨⟨⟨h1, h2⟩, _⟩, _⟩ := hok
+    have hlen : (stores.filter (fun s => s.2 == f)).length = 1 := by
+      rcases h2 f hf with h | h
+      · exact absurd (by simpa using h) hnd
+      · exact h
+    obtain ⟨s, hfind, hmem, hs⟩ := find_of_filter_len_one _ _ hlen
+    have hsf : s.2 = f := by simpa using hs
+    have h1s := h1 s hmem
+    simp only [rebuildRule, hfind, emitRule]
+    cases hl : rw.lookup s.1 with
+    | none => simp [hl] at h1s
+    | some a =>
+      simp only [hl, beq_iff_eq] at h1s
+      simp [h1s, hsf]
+  refine ⟨hrule, ?_⟩
+  refine ⟨{ states := d.states.map id, rules := d.rules.map (emitRule rw acc fields) },
+    by simp only [emitDef, hit, if_true], by simp, by simp, ?_⟩
+  intro k hk f hf hnd
+  simp [List.getElem?_map, List.getElem?_eq_getElem hk, hrule _ f hf hnd]
+
+/-- **The generator's wiring, as found in the source on this run, is the correct one**: each of the
+`LexFlags` fields is assigned exactly once, from the user's value of that same field, with that same
+field's default; every argument of the generated `Rule::new` is read through the accessor of the field its
+parameter is stored in, every field of `Rule` but `re` is stored from exactly one parameter; rules and
+start states are taken from `lexerdef.iter_rules()` / `lexerdef.iter_start_states()` with nothing in
+between. This is the obligation that stops checking when the generator is rewired (a flag ignored, two
+flags crossed, states filtered, rules reordered, a field of a rule dropped). -/
+theorem extracted_lexer_wiring_ok :
+    flagWiringOk C13_LEXFLAGS_FIELDS C13_FLAG_WIRING = true ∧
+    ruleWiringOk C13_RULE_FIELDS C13_RULE_DERIVED_FIELDS C13_RULE_WIRING C13_RULE_NEW_STORES
+      C13_RULE_ACCESSORS = true ∧
+    C13_RULE_DERIVED_FIELDS = ["re"] ∧
+    iterOk C13_RULES_ITER C13_STATES_ITER = true := by decide
+
+/-- the two general theorems applied to the source as it is: the generated `lexerdef()` of this source
+tree has the user-or-default value in every `LexFlags` field -/
+theorem generated_flags_of_this_source (user dflt : Flags) :
+    ∀ f ∈ C13_LEXFLAGS_FIELDS, emitFlags C13_FLAG_WIRING user dflt f = (user f).or (dflt f) :=
+  generated_flags_are_source_flags _ _ extracted_lexer_wiring_ok.1 user dflt
+
 /-! ### tests (labelled as such): the hypotheses are satisfiable and the boundary cases behave as read
 off the code -/
 
@@ -236,5 +324,32 @@ example : unpack [.tok 0, .rule 2, .tok 1] [.lexeme 10 false, .value 2 77, .lexe
     = some [.okLex 10, .val 77, .errLex 11] := by decide
 example : agree [.tok 0, .rule 2, .tok 1] [.lexeme 10 false, .value 2 77, .lexeme 11 true] := by
   simp [agree, fits]
+
+-- wiring tests: two crossed flags are rejected
+example : flagWiringOk ["swap_greed", "ignore_whitespace"]
+    [("ignore_whitespace", "swap_greed", "ignore_whitespace"), ("swap_greed", "ignore_whitespace", "swap_greed")] = false := by decide
+-- a flag that is never assigned (ignored) is rejected, and so is one assigned with another's default
+example : flagWiringOk ["octal", "unicode"] [("octal", "octal", "octal")] = false := by decide
+example : flagWiringOk ["octal", "unicode"] [("octal", "octal", "octal"), ("unicode", "unicode", "octal")] = false := by decide
+-- the straight wiring is accepted, and the crossed one really computes something else
+example : flagWiringOk ["octal", "unicode"] [("unicode", "unicode", "unicode"), ("octal", "octal", "octal")] = true := by decide
+example : emitFlags [("a", "b", "a"), ("b", "a", "b")] (fun f => if f = "a" then some 1 else none) (fun _ => some 0) "b"
+    = some 1 := by decide
+-- iterators: a filter, a reversal, swapped iterators are rejected
+example : iterOk "lexerdef.iter_rules()" "lexerdef.iter_start_states().filter(|ss| ss.id == 0)" = false := by decide
+example : iterOk "lexerdef.iter_rules().rev()" "lexerdef.iter_start_states()" = false := by decide
+-- rules: a target state read from another accessor, or not passed at all, is rejected
+example : ruleWiringOk ["name", "target_state", "re"] ["re"]
+    [("name", "name()"), ("target_state", "name()"), ("lex_flags", "&lex_flags")]
+    [("name", "name"), ("target_state", "target_state")]
+    [("name()", "name"), ("target_state()", "target_state")] = false := by decide
+example : ruleWiringOk ["name", "target_state", "re"] ["re"]
+    [("name", "name()"), ("lex_flags", "&lex_flags")]
+    [("name", "name"), ("target_state", "target_state")]
+    [("name()", "name"), ("target_state()", "target_state")] = false := by decide
+example : ruleWiringOk ["name", "target_state", "re"] ["re"]
+    [("name", "name()"), ("target_state", "target_state()"), ("lex_flags", "&lex_flags")]
+    [("name", "name"), ("target_state", "target_state")]
+    [("name()", "name"), ("target_state()", "target_state")] = true := by decide
 
 end GrmVerif.C13
